@@ -7,9 +7,14 @@ from pyvc import solve
 
 def load_model(modules):
     m = Model()
+    kf = '/verif/known_findings.json'
+    if os.path.exists(kf):
+        for f in json.load(open(kf)).get('findings', []):
+            if f.get('kind') == 'obligation':
+                m.unassumed.add(f['obligation'])
     for name in modules:
         mod = importlib.import_module('contracts.' + name)
-        for fn in ('build', 'build2', 'build3', 'build4', 'build5'):
+        for fn in ('build', 'build2', 'build3', 'build4', 'build5', 'build6', 'build7'):
             if hasattr(mod, fn):
                 getattr(mod, fn)(m)
     return m
